@@ -53,7 +53,17 @@ def m_url_recoerced(case, observed, finding):
                 and isinstance(observed, dict) and observed.get('outcome') == 'url')
 
 
-MATCHERS = {'ignorecase_fold': m_ignorecase_fold, 'url_recoerced': m_url_recoerced}
+def m_stale_info(case, observed, finding):
+    """D14h: get_info() adopted metadata (hash A), then a valid hash denoting a *different* number was assigned;
+    everything up to there went as specified, and torrent() still reports A."""
+    return bool(case.get('kind') == 'getinfo-history' and isinstance(observed, dict)
+                and observed.get('stage') == 'torrent() after re-assignment'
+                and observed.get('adopted_before') is not None
+                and observed.get('torrent_infohash') == observed['adopted_before']
+                and observed.get('holds_hex') not in (None, observed['adopted_before']))
+
+
+MATCHERS = {'ignorecase_fold': m_ignorecase_fold, 'url_recoerced': m_url_recoerced, 'stale_info': m_stale_info}
 
 
 # ------------------------------------------------------------------ real code: hash assignments
@@ -219,6 +229,398 @@ def eval_history(ctx, drv, cases):
             ctx.machinery_error('history model outside spec although C14_history_independent is proved', case)
         elif m['errs'] != o['errs'] or mg.uncps(m['state']) != o['state']:
             ctx.corr_break('c14.history', case, m, o)
+
+
+# ------------------------------------------------------------------ histories that also convert
+def _run_use_chunk(cases):
+    """one object per case: assignments through both setters interleaved with torrent()"""
+    torf = common.import_torf()
+    out = []
+    for c in cases:
+        try:
+            m = torf.Magnet(c['prior'])
+        except BaseException as e:  # noqa
+            out.append({'exc': type(e).__name__})
+            continue
+        obs = []
+        for op in c['ops']:
+            if op[0] == 'torrent':
+                try:
+                    obs.append({'base16': m.torrent().infohash})
+                except BaseException as e:  # noqa
+                    obs.append({'base16': 'raised:' + type(e).__name__})
+            else:
+                try:
+                    setattr(m, op[0], op[1])
+                    obs.append({'err': None})
+                except BaseException as e:  # noqa
+                    obs.append({'err': mg.errkind(e)})
+        out.append({'obs': obs, 'state': m.infohash})
+    return out
+
+
+def _valid_in(rng, hx, entry):
+    """a valid spelling of the 20-byte hash `hx` for this setter"""
+    n = mg.notations(hx)
+    v = rng.choice([n['hex-lower'], n['hex-upper'], n['b32-upper'], n['b32-lower'], mg.randcase(rng, hx),
+                    mg.randcase(rng, n['b32-upper'])])
+    if entry == 'xt' and rng.random() < 0.5:
+        v = rng.choice(['urn:btih:', 'URN:BTIH:', 'Urn:Btih:']) + v
+    return v
+
+
+def use_cases(ctx, scale=1.0):
+    """histories on ONE object: convert -> assign (valid in any notation / invalid) -> convert ..."""
+    rng = ctx.rng
+    cases = []
+    h1, h2 = 'ab' * 20, '0123456789abcdef0123456789abcdef01234567'
+    n2 = mg.notations(h2)
+    # exhaustive small scope: prior notation x setter x new notation, with and without a rejected assignment between
+    for pk in PRIORS:
+        for entry in ('infohash', 'xt'):
+            for nk in ('hex-lower', 'hex-upper', 'b32-upper', 'b32-lower'):
+                v = n2[nk]
+                cases.append({'prior': PRIORS[pk], 'ops': [['torrent'], [entry, v], ['torrent']]})
+                cases.append({'prior': PRIORS[pk], 'ops': [['torrent'], [entry, v + 'z'], ['torrent'], [entry, v], ['torrent']]})
+                cases.append({'prior': PRIORS[pk], 'ops': [[entry, v], ['torrent'], [entry, 'urn:btih:' + h1], ['torrent']]})
+    pool = [x for x in mg.fixed_hash_strings() if not any(ch in mg.FOLD for ch in x[1])]
+    for _ in range(int(ctx.n(2500, 40000) * scale)):
+        ops = []
+        for _ in range(rng.randint(3, 8)):
+            r = rng.random()
+            if r < 0.4:
+                ops.append(['torrent'])
+            elif r < 0.75:
+                e = rng.choice(['xt', 'infohash'])
+                ops.append([e, _valid_in(rng, mg.rand_hex40(rng), e)])
+            else:
+                label, v = rng.choice(pool) if rng.random() < 0.5 else mg.hash_strings(rng, 1)[0]
+                if any(ch in mg.FOLD for ch in v) or mg.has_surrogate(v):
+                    v = v.encode('ascii', 'replace').decode()
+                ops.append([rng.choice(['xt', 'infohash']), v])
+        ops.append(['torrent'])
+        cases.append({'prior': _valid_in(rng, mg.rand_hex40(rng), 'infohash'), 'ops': ops})
+    return cases
+
+
+def _norm_obs(o):
+    if 'err' in o:
+        return {'err': o['err']}
+    if 'base16' in o:
+        b = o['base16']
+        return {'base16': mg.uncps(b['ok']) if 'ok' in b else 'raised:' + str(b.get('err'))}
+    return {'unset': True}
+
+
+def eval_use(ctx, drv, cases):
+    replies = drv.run([{'op': 'c14.use', 'prior': mg.cps(c['prior']),
+                        'ops': [{'entry': op[0], 'v': mg.cps(op[1]) if len(op) > 1 else []} for op in c['ops']]}
+                       for c in cases])
+    obs = [o for ch in common.pmap(_run_use_chunk, common.split(cases, common.NPROC * 4)) for o in ch]
+    for c, r, o in zip(cases, replies, obs):
+        case = {'kind': 'use', 'prior': c['prior'], 'ops': [list(x) for x in c['ops']]}
+        nconv = sum(1 for op in c['ops'] if op[0] == 'torrent')
+        ctx.case(key=('use', c['prior'], tuple(tuple(x) for x in c['ops'])), nontrivial=nconv >= 2,
+                 kind=f'use-history/{len(c["ops"])}')
+        s_obs = [_norm_obs(x) for x in r['spec']['obs']]
+        s_state = mg.uncps(r['spec']['state'])
+        if len(ctx.samples) < 8 and nconv >= 2 and ctx.dist['sampled-use'] < 1:
+            ctx.dist['sampled-use'] += 1
+            ctx.sample({'case': case, 'spec': s_obs, 'impl': o}, limit=8)
+        if 'exc' in o or o['obs'] != s_obs or o['state'] != s_state:
+            k = next((k for k, (a, b) in enumerate(zip(o.get('obs', []), s_obs)) if a != b), None)
+            if k is not None and c['ops'][k][0] != 'torrent':
+                e, v = c['ops'][k]
+                sub = {'kind': 'hash', 'entry': e, 'prior': '<history>', 'v': v, 'use_history': case}
+                ctx.violation('within a history an assignment was judged differently than the specification demands',
+                              sub, {'obs': s_obs, 'state': s_state},
+                              {'outcome': 'ok' if o['obs'][k]['err'] is None else o['obs'][k]['err'], 'obs': o['obs'],
+                               'state': o['state']}, finding_matchers=MATCHERS)
+            elif k is not None:
+                ctx.violation('torrent().infohash is not the 40-digit hexadecimal form of the hash the magnet holds at that '
+                              'moment (step %d of a history of assignments and conversions on one object)' % k,
+                              case, {'obs': s_obs, 'state': s_state}, dict(o, first_deviating_step=k),
+                              finding_matchers=MATCHERS)
+            else:
+                ctx.violation('after a history of assignments and conversions the object does not hold the last accepted value',
+                              case, {'obs': s_obs, 'state': s_state}, o, finding_matchers=MATCHERS)
+            continue
+        if not r['hyp']:
+            continue
+        m_obs = [_norm_obs(x) for x in r['model']['obs']]
+        if m_obs != s_obs or mg.uncps(r['model']['state']) != s_state:
+            ctx.machinery_error('use-history model outside spec although C14_convert_history is proved', case)
+        elif m_obs != o['obs']:
+            ctx.corr_break('c14.use', case, m_obs, o['obs'])
+
+
+# ------------------------------------------------------------------ get_info, re-assignment, get_info on one object
+GIH_PAYLOADS = ['good', 'bad', 'garbage', 'notfound']      # serve torrent "good" / torrent "bad" / junk / 404
+NOTATIONS = ['hex-lower', 'hex-upper', 'b32-upper', 'b32-lower', 'hex-mixed', 'b32-mixed']
+
+
+def _adopts(who, sources, payloads, validate):
+    """does get_info adopt something (plain Python reading of the property, used only to steer the generator)"""
+    for kind, p in zip(sources, payloads):
+        if p in ('good', 'bad'):
+            return (not validate) or p == who
+    return False
+
+
+def gih_scenarios(ctx, scale=1.0):
+    rng = ctx.rng
+    sc = []
+
+    def add(**kw):
+        kw.setdefault('validate', True)
+        kw.setdefault('tq', [False, False])
+        sc.append(kw)
+    # small scope, systematically: what phase 1 converts x how the hash is re-assigned x what phase 2 must do
+    for kind in ('tr', 'xs', 'ws', 'as_'):
+        for n1 in ('hex-lower', 'hex-upper', 'b32-upper', 'b32-lower'):
+            for entry in ('infohash', 'xt'):
+                n2 = rng.choice(NOTATIONS)
+                # nothing adopted in phase 1 (404 / other torrent refused) -> assign the served torrent's hash -> adopted
+                add(first='bad', n1=n1, sources=[kind], p1=['notfound'], reassign=[[entry, 'good', n2, False]], p2=['good'])
+                add(first='bad', n1=n1, sources=[kind], p1=['good'], reassign=[[entry, 'good', n2, entry == 'xt']], p2=['good'])
+                # ... after a rejected assignment in between
+                add(first='bad', n1=n1, sources=[kind], p1=['good'],
+                    reassign=[[entry, 'invalid', 'ab' * 20 + 'z'], [entry, 'good', n2, False]], p2=['good'], tq=[True, True])
+                # the old hash's torrent must be refused after the re-assignment
+                add(first='good', n1=n1, sources=[kind], p1=['garbage'], reassign=[[entry, 'bad', n2, False]], p2=['good'])
+                # adopted in phase 1, then another hash assigned: torrent() must follow the magnet (D14h)
+                add(first='good', n1=n1, sources=[kind], p1=['good'], reassign=[[entry, 'bad', n2, False]], p2=['notfound'],
+                    tq=[True, True])
+                # same number in another notation: adopted metadata stays valid
+                add(first='good', n1=n1, sources=[kind], p1=['good'], reassign=[[entry, 'good', n2, False]], p2=['good'],
+                    tq=[False, True])
+    for _ in range(int(ctx.n(120, 1500) * scale)):
+        n = rng.randint(1, 4)
+        kinds = ['xs', 'as_'] + ['ws'] * 2 + ['tr'] * 2
+        rng.shuffle(kinds)
+        order = {'xs': 0, 'as_': 1, 'ws': 2, 'tr': 3}
+        sources = sorted(kinds[:n], key=lambda k: order[k])
+
+        def payloads():
+            trp = rng.choice(GIH_PAYLOADS)               # all trackers share one netloc, hence one payload
+            return [trp if k == 'tr' else rng.choice(GIH_PAYLOADS) for k in sources]
+        first = rng.choice(['good', 'bad', mg.rand_hex40(rng)])
+        validate = rng.random() < 0.85
+        p1 = payloads()
+        re = []
+        for _ in range(rng.randint(1, 3)):
+            entry = rng.choice(['xt', 'infohash'])
+            if rng.random() < 0.25:
+                re.append([entry, 'invalid', rng.choice(['', 'junk', 'ab' * 20 + '\n', 'urn:btih:', 'z' * 40, 'a' * 31, '0' * 32])])
+            else:
+                re.append([entry, rng.choice(['good', 'bad', 'good', mg.rand_hex40(rng)]), rng.choice(NOTATIONS),
+                           rng.random() < 0.4])
+        a1 = _adopts(first, sources, p1, validate)
+        add(first=first, n1=rng.choice(NOTATIONS), sources=sources, p1=p1, reassign=re, p2=payloads(), validate=validate,
+            tq=[rng.random() < 0.4, a1 or rng.random() < 0.4])
+    return sc
+
+
+def _run_gih_chunk(scs):
+    import random
+    torf = common.import_torf()
+    srv = mg.TorrentServer()
+    out = []
+    try:
+        good, ih = _mk_torrent(torf, 'matching')
+        bad, ih_bad = _mk_torrent(torf, 'other')
+        bodies = {'good': (200, good), 'bad': (200, bad), 'garbage': (200, b'this is not bencoded'), 'notfound': (404, b'')}
+        for s in scs:
+            rng = random.Random(s['seed'])
+
+            def spell(who, notation):
+                hx = {'good': ih, 'bad': ih_bad}.get(who, who)
+                nots = mg.notations(hx)
+                nots['hex-mixed'] = mg.randcase(rng, hx)
+                nots['b32-mixed'] = mg.randcase(rng, nots['b32-upper'])
+                return nots[notation]
+            own = spell(s['first'], s['n1'])
+            kw = {'ws': [], 'tr': []}
+            base = f'http://127.0.0.1:{srv.port}'
+            for k, kind in enumerate(s['sources']):
+                if kind == 'tr':
+                    kw['tr'].append(f'{base}/announce/{k}')
+                elif kind == 'ws':
+                    kw['ws'].append(f'{base}/s{k}/t')
+                else:
+                    kw[kind] = f'{base}/s{k}/t.torrent'
+            m = torf.Magnet(own, **kw)
+
+            def phase(payloads):
+                srv.routes.clear()
+                for k, (kind, p) in enumerate(zip(s['sources'], payloads)):
+                    srv.routes['/file?info_hash=' if kind == 'tr' else f'/s{k}/t'] = bodies[p]
+                srv.seen.clear()
+                cb = []
+                try:
+                    res = bool(m.get_info(validate=s['validate'], timeout=10, callback=lambda e: cb.append(type(e).__name__)))
+                except BaseException as e:  # noqa
+                    res = 'raised:' + mg.errkind(e)
+                return {'result': res, 'seen': list(srv.seen), 'callbacks': cb}
+
+            def tq():
+                try:
+                    t = m.torrent()
+                    return {'torrent_infohash': t.infohash, 'has_pieces': 'pieces' in t.metainfo['info']}
+                except BaseException as e:  # noqa
+                    return {'torrent_infohash': 'raised:' + type(e).__name__}
+            o = {'p1': phase(s['p1'])}
+            if s['tq'][0]:
+                o['t1'] = tq()
+            ops, errs = [], []
+            for op in s['reassign']:
+                v = op[2] if op[1] == 'invalid' else ('urn:btih:' if op[3] else '') + spell(op[1], op[2])
+                ops.append([op[0], v])
+                try:
+                    setattr(m, op[0], v)
+                    errs.append(None)
+                except BaseException as e:  # noqa
+                    errs.append(mg.errkind(e))
+            o.update(ops=ops, errs=errs, state=m.infohash)
+            if s['tq'][1]:
+                o['tmid'] = tq()
+            o['p2'] = phase(s['p2'])
+            o['t2'] = tq()
+            out.append({'scenario': s, 'own': own, 'kw': kw, 'ih': ih, 'ih_bad': ih_bad, 'port': srv.port, 'obs': o})
+    finally:
+        srv.close()
+    return out
+
+
+def _gi_expect(payloads, matches, validate):
+    """the property, read directly: sources in order; the first readable torrent is adopted iff it denotes the magnet's
+    hash (without validation: adopted as it is); a readable torrent with another hash raises MetainfoError"""
+    exp, consulted, adopted = False, 0, None
+    for p, match in zip(payloads, matches):
+        consulted += 1
+        if match is None:
+            continue
+        if validate and not match:
+            exp = 'raised:metainfo'
+            break
+        exp, adopted = True, p
+        break
+    return exp, consulted, adopted
+
+
+def eval_gih(ctx, drv, scs):
+    for i, s in enumerate(scs):
+        s.setdefault('seed', ctx.seed * 100003 + i)
+    results = [o for ch in common.pmap(_run_gih_chunk, common.split(scs, min(common.NPROC, 8))) for o in ch]
+    # every assignment judged on its own (fresh object), and the 40-digit form of every hash involved
+    hreq, hidx = [], []
+    for ri, res in enumerate(results):
+        hreq.append({'op': 'c14.hash', 'v': mg.cps(res['own']), 'prior': None, 'entry': 'infohash'})
+        hidx.append((ri, None))
+        for k, (e, v) in enumerate(res['obs']['ops']):
+            hreq.append({'op': 'c14.hash', 'v': mg.cps(v), 'prior': None, 'entry': e})
+            hidx.append((ri, k))
+    judged = {}
+    for (ri, k), r in zip(hidx, drv.run(hreq)):
+        judged[(ri, k)] = r['spec']
+    plans = []
+    greq = []
+    for ri, res in enumerate(results):
+        s, o = res['scenario'], res['obs']
+        cur, cur_hex = res['own'], mg.uncps(judged[(ri, None)]['base16'])
+        own_hex = cur_hex
+        exp_errs = []
+        for k, (e, v) in enumerate(o['ops']):
+            j = judged[(ri, k)]
+            exp_errs.append(None if j['accept'] else 'magnet')
+            if j['accept']:
+                cur, cur_hex = mg.uncps(j['state']), mg.uncps(j['base16'])
+        plans.append({'own_hex': own_hex, 'cur': cur, 'cur_hex': cur_hex, 'exp_errs': exp_errs})
+        kw = res['kw']
+        tr = []
+        for u in kw['tr']:
+            p = urllib.parse.urlparse(u)
+            tr.append([mg.cps(p.scheme), mg.cps(p.netloc)])
+        for own, payloads in ((res['own'], s['p1']), (cur, s['p2'])):
+            served = [{'kind': 'torrent', 'infohash': mg.cps(res['ih'] if p == 'good' else res['ih_bad']), 'nonEmpty': True}
+                      if p in ('good', 'bad') else {'kind': 'unreadable' if p == 'garbage' else 'connError'} for p in payloads]
+            greq.append({'op': 'c14.getinfo', 'ih': mg.cps(own), 'xs': mg.ocps(kw.get('xs')), 'as_': mg.ocps(kw.get('as_')),
+                         'ws': [mg.cps(u) for u in kw['ws']], 'tr': tr, 'validate': s['validate'], 'served': served})
+    grep = drv.run(greq)
+    for ri, (res, plan) in enumerate(zip(results, plans)):
+        s, o = res['scenario'], res['obs']
+        g1, g2 = grep[2 * ri], grep[2 * ri + 1]
+        case = dict(s, kind='getinfo-history', own=res['own'], assignments=o['ops'])
+        ctx.case(key=('gih', s['first'], s['n1'], tuple(s['sources']), tuple(s['p1']), tuple(map(tuple, s['reassign'])),
+                      tuple(s['p2']), s['validate'], tuple(s['tq'])), nontrivial=True,
+                 kind='getinfo-history/' + '+'.join(s['sources']))
+        served_hash = {'good': res['ih'], 'bad': res['ih_bad']}
+
+        def paths(n, hx):
+            enc = urllib.parse.quote_from_bytes(bytes.fromhex(hx))
+            return ['/file?info_hash=' + enc if kind == 'tr' else f'/s{k}/t.torrent' for k, kind in enumerate(s['sources'][:n])]
+        exp1, n1, ad1 = _gi_expect(s['p1'], g1['spec']['matches'], s['validate'])
+        stages = [('get_info() before the re-assignment', {'result': exp1, 'seen': paths(n1, plan['own_hex'])},
+                   {k: o['p1'][k] for k in ('result', 'seen')})]
+        if 't1' in o:
+            stages.append(('torrent() before the re-assignment',
+                           {'torrent_infohash': served_hash[ad1], 'has_pieces': True} if ad1 else
+                           {'torrent_infohash': plan['own_hex'], 'has_pieces': False}, o['t1']))
+        stages.append(('assignments', {'errs': plan['exp_errs'], 'state': plan['cur']}, {'errs': o['errs'], 'state': o['state']}))
+        if ad1:
+            # metadata adopted for hash A; the magnet now holds plan['cur']: torrent() must report the hash the
+            # magnet holds (identical to A when only the notation changed)
+            if 'tmid' in o and plan['cur_hex'] == plan['own_hex']:
+                # the number the magnet denotes did not change (rejected assignments / another notation only)
+                stages.append(('torrent() after assignments that left the hash unchanged',
+                               {'torrent_infohash': served_hash[ad1], 'has_pieces': True}, o['tmid']))
+            elif 'tmid' in o:
+                stages.append(('torrent() after re-assignment', {'torrent_infohash': plan['cur_hex']},
+                               {'torrent_infohash': o['tmid'].get('torrent_infohash'), 'adopted_before': served_hash[ad1],
+                                'holds_hex': plan['cur_hex']}))
+            ctx.dist['getinfo-history:adopted-in-phase-1(phase 2 not judged)'] += 1
+        else:
+            if 'tmid' in o:
+                stages.append(('torrent() after re-assignment (nothing adopted so far)',
+                               {'torrent_infohash': plan['cur_hex'], 'has_pieces': False}, o['tmid']))
+            exp2, n2, ad2 = _gi_expect(s['p2'], g2['spec']['matches'], s['validate'])
+            stages.append(('get_info() after the re-assignment', {'result': exp2, 'seen': paths(n2, plan['cur_hex'])},
+                           {k: o['p2'][k] for k in ('result', 'seen')}))
+            stages.append(('torrent() at the end',
+                           {'torrent_infohash': served_hash[ad2], 'has_pieces': True} if ad2 else
+                           {'torrent_infohash': plan['cur_hex'], 'has_pieces': False}, o['t2']))
+        if ctx.dist['sampled-gih'] < 1:
+            ctx.dist['sampled-gih'] += 1
+            ctx.sample({'case': case, 'stages': [[a, b] for a, b, _ in stages]}, limit=8)
+        bad = next(((name, e, got) for name, e, got in stages
+                    if any(got.get(k) != v for k, v in e.items())), None)
+        if bad:
+            name, e, got = bad
+            ctx.violation('one magnet object, get_info() / hash re-assignment / get_info(): at stage "%s" the object does not '
+                          'behave like a magnet holding the hash assigned last (request for exactly its 20 bytes, adopt iff '
+                          'the fetched infohash denotes it, torrent() reports it)' % name,
+                          case, dict(e, stage=name), dict(got, stage=name), finding_matchers=MATCHERS)
+            continue
+        # --- model of get_info (run on the hash held in each phase) against specification and implementation
+        for g, ph, (exp, n) in ((g1, o['p1'], (exp1, n1)),) + (() if ad1 else ((g2, o['p2'], (exp2, n2)),)):
+            if not g['hyp']:
+                continue
+            mres = g['model']['result']
+            mk = {'adopted': True, 'nothing': False}.get(mres['kind'], 'raised:' + str(mres.get('err')))
+            if mk != exp or mres['consulted'] != n:
+                ctx.machinery_error('get_info model outside spec although C14_adopt_iff/C14_adopt_sound are proved',
+                                    {'case': case, 'model': mres, 'exp': exp})
+                break
+            murls = g['model']['urls'].get('ok')
+            mpaths = None
+            if murls is not None:
+                mpaths = []
+                for u in [mg.uncps(u) for u in murls][:n]:
+                    p = urllib.parse.urlsplit(u)
+                    mpaths.append(p.path + ('?' + p.query if p.query else ''))
+            if mpaths != ph['seen']:
+                ctx.corr_break('c14.getinfo', case, {'requests': mpaths, 'result': mres}, ph)
+                break
 
 
 # ------------------------------------------------------------------ xl
@@ -622,9 +1024,11 @@ def run(ctx, drv):
         _eval_case(ctx, drv, c)
     eval_hash(ctx, drv, hash_cases(ctx))
     eval_history(ctx, drv, history_cases(ctx))
+    eval_use(ctx, drv, use_cases(ctx))
     eval_xl(ctx, drv)
     eval_urls(ctx, drv)
     eval_getinfo(ctx, drv, getinfo_scenarios(ctx))
+    eval_gih(ctx, drv, gih_scenarios(ctx))
     ctx.exhaustive = False
     for f in ctx.open_findings():
         if f['id'] not in ctx.known:
@@ -634,12 +1038,20 @@ def run(ctx, drv):
 def search(ctx, drv):
     eval_hash(ctx, drv, hash_cases(ctx, scale=3.0))
     eval_history(ctx, drv, history_cases(ctx, scale=3.0))
+    eval_use(ctx, drv, use_cases(ctx, scale=3.0))
     eval_getinfo(ctx, drv, getinfo_scenarios(ctx, scale=3.0))
+    eval_gih(ctx, drv, gih_scenarios(ctx, scale=3.0))
 
 
 def _eval_case(ctx, drv, c):
     k = c.get('kind')
-    if k == 'hash':
+    if k == 'use' or (k == 'hash' and 'use_history' in c):
+        h = c.get('use_history', c)
+        eval_use(ctx, drv, [{'prior': h['prior'], 'ops': [list(x) for x in h['ops']]}])
+    elif k == 'getinfo-history':
+        eval_gih(ctx, drv, [{key: c[key] for key in ('first', 'n1', 'sources', 'p1', 'reassign', 'p2', 'validate', 'tq', 'seed')
+                             if key in c}])
+    elif k == 'hash':
         if 'history' in c:
             h = c['history']
             eval_history(ctx, drv, [{'prior': h['prior'], 'ops': [tuple(x) for x in h['ops']]}])
